@@ -99,9 +99,9 @@ PROPS = {
         "7 C16"),
     "C20": entry(
         "Obsolete files are reclaimed and nothing live is ever deleted",
-        [ib("drop", 300, 10000, blob=2, ops=60), ib("snap", 300, 10000, blob=2, ops=60), ib("reopen", 200, 5000, blob=2, ops=50), fsi("proto", "std", False, 1, 1)],
+        [ib("drop", 300, 10000, blob=2, ops=60), ib("snap", 300, 10000, blob=2, ops=60), ib("reopen", 200, 5000, blob=2, ops=50), fsi("proto", "std", False, 1, 1), fsi("crash", "std", True, 5, 1), fsi("fault", "std", False, 6, 1)],
         "I-B: after every op the directory listing (tables/, blobs/, v<N>) is compared with the files named by the live history entries: a named file missing = live file deleted; an unnamed file present = not reclaimed (quiescent moments only; watermarks up to the newest snapshot so old entries get collected; reopen at many positions); "
-        "I-C: every unlink the engine issues must be accepted by the automaton (never a file the durable version names)",
+        "I-C: every unlink the engine issues must be accepted by the automaton (never a file the durable version names); crash images (SIGKILL after the k-th traced syscall, with loss variants) of a key-value-separated tree: after the reopen the directory must hold exactly the tables, blob files and version file the recovered version names; fault injection: after a failed call and an immediate reopen nothing the version names may be missing",
         TECH,
         "c20_live_files_never_unlinked: in an accepted sequence no unlink hits a file the new version names, and none hits a file of the old version before the new one is durable; c20_cleanup_safe: deleting files the recovered version does not name never affects recovery.",
         "liveness (files disappear when the last reference drops) rests on Rust Drop semantics, observed not proved",
@@ -117,8 +117,9 @@ PROPS = {
         "7 C01", modules=["C01", "C01b"]),
     "C06": entry(
         "Background flushes and compactions never change what readers see or lose a write",
-        [{"args": ["id"], "cases": {"quick": 120, "thorough": 6000}}, {"args": ["id", "--inflight"], "cases": {"quick": 120, "thorough": 6000}}, {"args": ["id", "--blob", "1"], "cases": {"quick": 60, "thorough": 3000}}],
-        "I-D: thread programs (1 writer 12-42 writes, flusher 3-8 flushes, 1-3 Leveled compactors, 1-2 readers at published snapshots) run under a cooperative scheduler at feature-gated scheduling points OUTSIDE the engine's lock regions: one thread runs from point to point, so every execution is a seed-reproducible sequence of segments with at most one critical section each; uniform and PCT-style priority schedules; after every segment the committed label (write / rotate / flushCommit / merge / move) is inferred from the state difference and replayed through the Lean model with full state comparison (atomic mode); inflight mode additionally pre-empts the writer between drawing its seqno and inserting (readers follow P2). Oracles: reads at published snapshots = last write below the snapshot; no Err, no panic; hidden set empty at the end; every acknowledged write present; reopen = flushed state. non-trivial = distinct executed label sequences",
+        [{"args": ["id"], "cases": {"quick": 400, "thorough": 8000}}, {"args": ["id", "--inflight"], "cases": {"quick": 200, "thorough": 6000}}, {"args": ["id", "--blob", "1"], "cases": {"quick": 100, "thorough": 3000}},
+         {"args": ["id", "--stress"], "cases": {"quick": 8, "thorough": 120}}, {"args": ["id", "--stress", "--blob", "1"], "cases": {"quick": 4, "thorough": 60}}],
+        "I-D: thread programs (1 writer 12-42 writes of reader-visible keys and, in phases, of a separate z key range; flusher 3-8 flushes; 1-3 Leveled compactors; 1-2 readers at published snapshots; one thread issuing major_compact / drop_range(z..) preferably while a minor compaction is between its choose and commit steps; one thread that only rotates) run under a cooperative scheduler at feature-gated scheduling points OUTSIDE the engine's lock regions: one thread runs from point to point, so every execution is a seed-reproducible sequence of segments with at most one critical section each; uniform and PCT-style priority schedules; after every segment the committed label (write / rotate / flushCommit / merge / move) is inferred from the state difference and replayed through the Lean model with full state comparison (atomic mode); inflight mode additionally pre-empts the writer between drawing its seqno and inserting (readers follow P2). Oracles: reads at published snapshots = last write below the snapshot; no Err, no panic; hidden set empty at the end; every acknowledged write present; reopen = flushed state. non-trivial = distinct executed label sequences",
         "Lean 4 theorems over all interleavings of thread programs at critical-section granularity + controlled-schedule replay of the real engine with step validation against the model",
         "c06_any_schedule_refines_map, c06_reads_at_published_snapshots_stable, c06_acknowledged_writes_present, c06_schedule_independent, c06_flush_commit_discard_sound, c06_final_reopen: for every interleaving (shuffle preserving program order) of the threads' labels that is an admissible run, reads equal the ordered-map model, published snapshots are stable, acknowledged writes survive, and the result does not depend on the schedule.",
         "atomicity granularity = the engine's critical sections; memory-model-level races inside crossbeam-skiplist / quick_cache and OS scheduling are not exhibited by the model; major_compact / drop_range concurrent with compactors are serialised by an exclusive lock and exercised sequentially (I-B), not in I-D",
@@ -141,7 +142,7 @@ PROPS = {
         "7 C11"),
     "C12": entry(
         "A table returns every item written to it through every read path",
-        [ia("tables", 600, 30000)],
+        [ia("tables", 600, 30000), ia("filters", 300, 10000)],
         "I-A: generated sorted multi-version streams (version slabs straddling block boundaries, tombstones, weak tombstones, long shared prefixes, entries larger than a block, single-entry tables) x writer settings (block size 1..4096, restart interval 1/2/16, hash ratio 0/0.75/8, partitioned index / filter, bloom none/bpk/fpr, global seqno 0/7, pinning) written by the real Writer, recovered by Table::recover; full scan, >= 30 point probes (absent keys between present ones, seqnos around every version), >= 8 ranged scans with random bounds and F/B words, metadata, per-block item counts, index end keys and (hash ratio 0) the BYTES of every data block compared with the model; independent C12 oracle on the real results; non-trivial = tables with >= 2 data blocks",
         TECH,
         "c12_scan, c12_index, c12_point (incl. version slabs spanning blocks; the seek rule is proved right), c12_get (global seqno shift, early exit, any filter without false negatives), c12_range_both_ends (all bounds, all words), c12_meta (streaming bookkeeping = declarative), c12_filter_complete, c12_block_seek (restart-head jump), c12_block_codec_roundtrip (varint, full / truncated entries, binary index, trailer) — for every stream, block size and restart interval.",
@@ -197,8 +198,8 @@ PROPS = {
         "7 C15"),
     "C18": entry(
         "Reported sequence-number high-water marks equal what is actually stored",
-        [ib("all", 400, 15000, blob=2, ops=60), ib("ingest", 200, 8000, blob=2, ops=50), ib("reopen", 200, 8000, blob=2, ops=50)],
-        "I-B: after every op get_highest_persisted_seqno / get_highest_memtable_seqno / get_highest_seqno are compared with maxima recomputed by iterating every table and memtable (incl. ingested tables with shifted sequence numbers, after GC, drop_range, clear) and must not change across reopen; per table get_highest_seqno vs stored maximum",
+        [ib("all", 400, 15000, blob=2, ops=60), ib("ingest", 200, 8000, blob=2, ops=50), ib("reopen", 200, 8000, blob=2, ops=50), ia("hwm", 400, 20000)],
+        "I-A hwm: memtables filled with entries in ARBITRARY seqno order (concurrent writers insert out of counter order) with rotations in between, marks of the real tree vs the model's marks on the same contents and vs the maxima of what was inserted; I-B: after every op get_highest_persisted_seqno / get_highest_memtable_seqno / get_highest_seqno are compared with maxima recomputed by iterating every table and memtable (incl. ingested tables with shifted sequence numbers, after GC, drop_range, clear) and must not change across reopen; per table get_highest_seqno vs stored maximum",
         TECH,
         "c18_persisted_is_max, c18_per_table, c18_table_meta_max, c18_reopen_same, c18_below_counter_reach, c18_flush_monotone, c18_merge_not_above (+ the proved counterexample that a last-level merge may lower the mark by evicting the tombstone that carried it).",
         "",
